@@ -28,6 +28,13 @@ CLAIMED.update({
          "Trusts the harness tokenizer for ground-truth positions; columns are byte offsets. Locations returned by LSP queries are checked by the same predicate inside C11/C15/C16.",
          "DESIGN.md §4 C14"),
 })
+CLAIMED.update({
+ "C05": ("exploration",
+         "fuzz-style property testing (random bytes, token soups, deep nesting, token/byte mutation and splicing of the repository corpus and of grammar-generated modules) through the whole front end with crash, no-progress and token-conservation oracles",
+         "Every generated input (1-3 modules, with the standard library) is pushed through parse, type-check, diagnostic rendering (text and IDE), formatting at three widths, whole-program compilation with every module as entry, and ServerState::new/update. Panics are caught with file:line signatures, aborts/stack overflows are attributed by process isolation, parser loops are made deterministic by a guarded no-progress hook, exponential formatter cost by a guarded work counter; compile_sources must be Err iff diagnostics exist; with no syntax error every identifier/literal token must be in the tree and the formatted module must carry the same keyword/operator tokens.",
+         "Sampling, not proof; stack overflow judged on an 8 MiB stack; wall-clock expiry is reported as inconclusive, never as a violation. One recorded finding (exponential formatting of nested if-else) is excluded by construction above depth 11.",
+         "DESIGN.md §4 C05"),
+})
 NOT_YET = {}
 
 props = [json.loads(l) for l in open(os.path.join(HERE, "properties.jsonl"))]
